@@ -1669,6 +1669,15 @@ Qed.
 
 End Contract.
 
+Arguments ReachPF {estate}. Arguments pending {estate}. Arguments RInv {estate}. Arguments read_post {estate}.
+Arguments read_fuel {estate}. Arguments zeros {estate}. Arguments errs {estate}. Arguments hand_over_post {estate}.
+Arguments ref_write {estate}. Arguments ref_flush {estate}. Arguments sink_track {estate}. Arguments err_reported {estate}.
+Arguments known_quiet {estate}. Arguments write_fuel {estate}. Arguments flush_fuel {estate}. Arguments wready {estate}.
+Arguments write_post {estate}. Arguments flush_call_post {estate}. Arguments close_post {estate}.
+Arguments wclean {estate}. Arguments session_fuel {estate}. Arguments pend_in {estate}. Arguments pend_out {estate}.
+Arguments CInv {estate}. Arguments copy_measure {estate}. Arguments copy_post {estate}. Arguments copy_fuel {estate}.
+Arguments chunk_independent {estate}. Arguments may_accept {estate}.
+
 (* ------------------------------------------------------------------ the contract is satisfiable *)
 (* A small concrete encoder: "compression" is the identity followed by a terminator byte 255
    ([framed] = false), or one length-prefixed frame per PROCESS call ([framed] = true - its output
@@ -1715,6 +1724,9 @@ Proof. intros Hc Hl. destruct l; [congruence|]. destruct cap; [lia|]. cbn. discr
 Lemma skipn_min0 {A} (l : list A) : skipn (Nat.min 0 (length l)) l = l.
 Proof. reflexivity. Qed.
 
+Lemma toy_phase2_fi p b : tphase_eqb (if tphase_eqb p TFl && b then TP else p) TFi = tphase_eqb p TFi.
+Proof. destruct p, b; reflexivity. Qed.
+
 Lemma toy_contract framed :
   contract toy (toy_step framed) toy_finished toy_more toy_accepting toy_live toy_potential 2.
 Proof.
@@ -1758,14 +1770,16 @@ Proof.
   - (* no finish without room *) intros s o inp Hnf. unfold toy_step.
     destruct (negb (tphase_eqb (ty_phase s) TP) && negb (is_nil inp)); [exact Hnf|].
     cbv zeta. cbn [ea_state Nat.min skipn]. unfold toy_finished in *. cbn [ty_phase ty_pend].
+    rewrite toy_phase2_fi.
     destruct (tphase_eqb (ty_phase s) TFi) eqn:Hp.
     + cbn [andb] in Hnf. destruct (ty_pend s) as [|b l]; [discriminate|].
-      cbn [app is_nil]. rewrite !andb_false_r. destruct o; cbn; rewrite ?andb_false_r; reflexivity.
+      cbn [app is_nil]. apply andb_false_r.
     + destruct o.
-      * destruct (ty_phase s); try discriminate; cbn; destruct (is_nil _); reflexivity.
-      * cbn [tphase_eqb andb]. destruct (is_nil _); reflexivity.
-      * cbn [tphase_eqb andb]. destruct (ty_pend s ++ inp ++ [255%N]) eqn:E; [|rewrite ?andb_false_r; reflexivity].
-        destruct (ty_pend s); destruct inp; discriminate.
+      * rewrite Hp. reflexivity.
+      * reflexivity.
+      * assert (E : forall a b : list byte, is_nil (a ++ b ++ [255%N]) = false)
+          by (intros a b; destruct a; destruct b; reflexivity).
+        rewrite E. apply andb_false_r.
   - (* potential *) intros s o inp cap. unfold toy_step.
     destruct (negb (tphase_eqb (ty_phase s) TP) && negb (is_nil inp)) eqn:Hr; [cbn; lia|].
     cbn [ea_state ea_produced ea_consumed]. unfold toy_potential. cbn [ty_pend ty_phase].
@@ -1775,16 +1789,162 @@ Proof.
     assert (Hlen : length (skipn (Nat.min cap (length pend1)) pend1) + length (firstn (Nat.min cap (length pend1)) pend1) = length pend1).
     { rewrite skipn_length, firstn_length. lia. }
     assert (Hab : length absorbed <= 2 * length inp).
-    { unfold absorbed. destruct o; try lia. destruct (framed && negb (is_nil inp)) eqn:Hfr; [|lia].
-      apply andb_true_iff in Hfr. destruct Hfr as [_ Hfr]. destruct inp; [discriminate|cbn; lia]. }
+    { unfold absorbed. unfold byte in *. destruct o; try lia. destruct (framed && negb (is_nil inp)) eqn:Hfr; [|lia].
+      apply andb_true_iff in Hfr. destruct Hfr as [_ Hfr]. destruct inp; [discriminate|cbn [length]; lia]. }
     assert (Hp1 : length pend1 = length (ty_pend s) + length absorbed + length term).
     { unfold pend1. rewrite !app_length. lia. }
+    rewrite toy_phase2_fi. unfold byte in *.
     destruct o; unfold term in *; cbn [length] in *.
-    + (* Process *) destruct (ty_phase s) eqn:Hph; cbn [tphase_eqb andb]; try lia;
-        destruct (is_nil _); cbn [tphase_eqb]; lia.
-    + (* Flush *) destruct (tphase_eqb (ty_phase s) TFi) eqn:Hph; cbn [tphase_eqb andb].
-      * lia.
-      * destruct (is_nil _); cbn [tphase_eqb]; lia.
-    + (* Finish *) cbn [tphase_eqb andb].
+    + (* Process *) destruct (tphase_eqb (ty_phase s) TFi); lia.
+    + (* Flush *) destruct (tphase_eqb (ty_phase s) TFi) eqn:Hph; cbn [tphase_eqb]; lia.
+    + (* Finish *) cbn [tphase_eqb].
       destruct (tphase_eqb (ty_phase s) TFi) eqn:Hph; cbn [length] in *; lia.
+Qed.
+
+(* ------------------------------------------------------------------ witnesses *)
+Definition plain_src (data : list byte) : source :=
+  {| src_rest := data; src_taken := []; src_script := {| s_list := []; s_tail := Full |}; src_log := [] |}.
+Definition scripted_src (data : list byte) (l : list beh) (tl : beh) : source :=
+  {| src_rest := data; src_taken := []; src_script := {| s_list := l; s_tail := tl |}; src_log := [] |}.
+Definition scripted_sink (l : list beh) (tl : beh) : sink :=
+  {| k_got := []; k_script := {| s_list := l; s_tail := tl |}; k_log := [] |}.
+
+(* -- a sink that accepts nothing, for ever *)
+Definition zero_sink (k : sink) : Prop := s_list (k_script k) = [] /\ s_tail (k_script k) = Zero.
+
+Lemma sink_write_zero k d : zero_sink k -> exists k', sink_write k d = (WAccept 0, k') /\ zero_sink k'.
+Proof.
+  intros [H1 H2]. unfold sink_write. rewrite H1, H2. cbn [sink_write_go write_apply].
+  eexists. split; [reflexivity|]. split; reflexivity.
+Qed.
+
+(* the write loop of the copy adapter as it stood before repair b5ff0f7 *)
+Lemma copy_drain_unrepaired_spins {estate} : forall fuel (c : copier estate) lim,
+  zero_sink (c_sink c) -> c_out_off c < lim -> fst (copy_drain false fuel c lim) = OutOfFuel.
+Proof.
+  induction fuel as [|f IH]; intros c lim Hz Hlt; [reflexivity|].
+  cbn [copy_drain]. destruct (Nat.leb_spec lim (c_out_off c)) as [H|_]; [lia|].
+  destruct (sink_write_zero (c_sink c) (firstn (lim - c_out_off c) (skipn (c_out_off c) (c_obuf c))) Hz) as (k' & E & Hz').
+  rewrite E. cbn [andb]. apply IH; cbn [set_sink c_sink c_out_off]; [exact Hz'|lia].
+Qed.
+
+(* C11_copy, refuted for the unrepaired loop: one byte in, a one-byte output buffer, a sink that
+   always answers Ok(0) *)
+Definition copy_witness : copier toy :=
+  copier_new 4 1 toy0 (plain_src [97%N]) (scripted_sink [] Zero).
+
+Lemma copy_unrepaired_spins :
+  forall fuel, fst (copy_zero_retries (toy_step false) toy_finished fuel copy_witness) = OutOfFuel.
+Proof.
+  intros [|f]; [reflexivity|].
+  unfold copy_zero_retries, copy_witness. cbn [copier_new c_ibuf c_obuf repeat length Nat.eqb orb].
+  cbn [copy_loop].
+  set (c0 := copier_new 4 1 toy0 (plain_src [97%N]) (scripted_sink [] Zero)).
+  change (copy_fill c0) with (copy_fill (copier_new 4 1 toy0 (plain_src [97%N]) (scripted_sink [] Zero))).
+  vm_compute (copy_fill _). cbv beta iota.
+  match goal with |- context [copy_compress ?e ?c] =>
+    let x := eval vm_compute in (copy_compress e c) in change (copy_compress e c) with x end.
+  cbv beta iota zeta.
+  match goal with |- context [toy_finished ?s] =>
+    let x := eval vm_compute in (toy_finished s) in change (toy_finished s) with x end.
+  unfold copy_write_out. cbn [c_avail_out Nat.eqb orb c_obuf length Nat.sub c_out_off negb set_sink c_sink].
+  match goal with |- context [copy_drain false f ?c ?l] =>
+    pose proof (copy_drain_unrepaired_spins f c l) as H;
+    destruct (copy_drain false f c l) as [r c'] end.
+  cbn [fst] in H. rewrite H; [reflexivity|split; reflexivity|cbn; lia].
+Qed.
+
+(* -- C11_reader_empty, refuted for the unrepaired loop: any source, the encoder not finished *)
+Lemma read_unguarded_witness :
+  forall fuel, fst (read_unguarded (toy_step false) toy_finished fuel
+                      (reader_new 4 toy0 (plain_src [97%N; 98%N; 99%N])) 0) = OutOfFuel.
+Proof.
+  apply (read_unguarded_spins toy (toy_step false) toy_finished toy_more toy_accepting toy_live toy_potential 2
+           (toy_contract false) toy0).
+  - apply reader_new_inv; try reflexivity; try lia. split; [reflexivity|discriminate].
+  - split; reflexivity.
+  - reflexivity.
+Qed.
+
+Definition bytes_abc : list byte := [97%N; 98%N; 99%N; 100%N; 101%N; 102%N; 103%N].
+Definition big_fuel : nat := 200.
+
+(* -- non-vacuity: a reader over short / interrupted / failing reads still delivers the one stream *)
+Example reader_example :
+  let r0 := reader_new 4 toy0 (scripted_src bytes_abc [Short 1; Interrupted; Fail 7; Short 2] Full) in
+  let '(rs, r) := read_session (toy_step false) toy_finished big_fuel 20 [0; 3; 1] 2 r0 in
+  rs = [Ok 0; Ok 1; Err (EScript 7); Ok 2; Ok 2; Ok 2; Ok 1; Ok 0] /\
+  emitted (r_enc r) = bytes_abc ++ [255%N] /\ src_taken_bytes (r_src r) = bytes_abc.
+Proof. vm_compute. repeat split; reflexivity. Qed.
+
+(* -- known class [stored errors exhausted]: the third zero-length write is swallowed ... *)
+Example writer_swallow_witness :
+  let w0 := writer_new 2 toy0 (scripted_sink [Zero; Zero; Zero] Full) in
+  let '(rs, w) := write_session (toy_step false) toy_finished toy_more big_fuel
+                    [WWrite bytes_abc; WFlush; WFlush; WFlush] w0 in
+  rs = [Err EWriteZero; Err EInvalidData; Ok tt; Ok tt] /\
+  log_zero_writes (k_log (w_sink w)) = 3 /\ sink_bytes (w_sink w) <> emitted (w_enc w).
+Proof. vm_compute. repeat split; try reflexivity. discriminate. Qed.
+
+(* ... and once error_if_invalid_data is gone, a call the encoder refuses panics *)
+Example writer_panic_witness :
+  let w0 := writer_new 2 toy0 (scripted_sink [Full; Fail 9] Full) in
+  let '(rs, w) := write_session (toy_step false) toy_finished toy_more big_fuel
+                    [WWrite bytes_abc; WFlush; WWrite [120%N]; WWrite [121%N]] w0 in
+  rs = [Ok tt; Err (EScript 9); Err EInvalidData; Panic 1].
+Proof. vm_compute. reflexivity. Qed.
+
+(* -- known class [close discards the error]: into_inner / Drop return normally although the sink
+      failed, and the sink is left without the end of the stream *)
+Example writer_close_witness :
+  let w0 := writer_new 8 toy0 (scripted_sink [Full; Fail 5] Full) in
+  let w1 := snd (write (toy_step false) big_fuel w0 bytes_abc) in
+  match close (toy_step false) toy_finished toy_more big_fuel w1 with
+  | (vis, discarded, w2) =>
+    vis = Ok tt /\ discarded = Err (EScript 5) /\ sink_bytes (w_sink w2) = bytes_abc /\
+    emitted (w_enc w2) = bytes_abc ++ [255%N]
+  end.
+Proof. vm_compute. repeat split; reflexivity. Qed.
+
+(* -- known class [encoder output depends on the cut of its input]: with an encoder that frames
+      every PROCESS call (as qualities 0 / 1 do) a short read changes the delivered bytes *)
+Example chunk_dependence_witness :
+  let run sc := read_session (toy_step true) toy_finished big_fuel 20 [] 64
+                  (reader_new 8 toy0 (scripted_src bytes_abc sc Full)) in
+  emitted (r_enc (snd (run []))) = [7%N] ++ bytes_abc ++ [255%N] /\
+  emitted (r_enc (snd (run [Short 3]))) = [3%N; 97%N; 98%N; 99%N; 4%N; 100%N; 101%N; 102%N; 103%N; 255%N] /\
+  Forall (fun r => exists n, r = Ok n) (fst (run [Short 3])).
+Proof. vm_compute. repeat split; try reflexivity. repeat constructor; eexists; reflexivity. Qed.
+
+(* -- non-vacuity for the copy adapter: read error recorded, stream finished, error returned *)
+Example copy_example :
+  let c0 := copier_new 3 2 toy0 (scripted_src bytes_abc [Short 2; Interrupted; Full; Fail 4] Full)
+                       (scripted_sink [Short 1; Interrupted] Full) in
+  let '(r, c) := copy (toy_step false) toy_finished big_fuel c0 in
+  r = Err (EScript 4) /\ sink_bytes (c_sink c) = [97%N; 98%N; 99%N; 100%N; 101%N; 255%N] /\
+  toy_finished (t_st (c_enc c)) = true.
+Proof. vm_compute. repeat split; reflexivity. Qed.
+
+Example copy_zero_example :
+  let c0 := copier_new 3 2 toy0 (plain_src bytes_abc) (scripted_sink [Full; Zero] Full) in
+  fst (copy (toy_step false) toy_finished big_fuel c0) = Err EUnexpectedEof.
+Proof. vm_compute. reflexivity. Qed.
+
+(* -- the known class of the writer, as a predicate on its state *)
+Definition KnownExhausted {estate} (w : writer estate) : Prop := w_ei w = false.
+
+Lemma write_outside_known estate (enc_step : estate -> op -> list byte -> nat -> eans estate) fuel (w : writer estate) rest :
+  tail_ok (k_script (w_sink w)) -> ~ KnownExhausted w -> known_quiet w (write_loop enc_step fuel w rest).
+Proof.
+  intros Ht Hk. apply write_loop_known; [exact Ht|].
+  unfold KnownExhausted in Hk. destruct (w_ei w); [reflexivity|congruence].
+Qed.
+
+Lemma flush_outside_known estate (enc_step : estate -> op -> list byte -> nat -> eans estate) enc_finished enc_more
+      fuel (w : writer estate) o :
+  tail_ok (k_script (w_sink w)) -> ~ KnownExhausted w ->
+  known_quiet w (flush_or_close enc_step enc_finished enc_more fuel w o).
+Proof.
+  intros Ht Hk. apply flush_or_close_known; [exact Ht|].
+  unfold KnownExhausted in Hk. destruct (w_ei w); [reflexivity|congruence].
 Qed.
